@@ -304,6 +304,54 @@ def check(run):
     if not seen:
         raise AnalysisError("anchor vanished: `np.abs(volume) < tol.zero` guard in triangles.mass_properties")
 
+    # ---------------------------------------------------------------- O9 the polynomials are evaluated in float64
+    run.rule("O9", "mass_properties / area evaluate their polynomials on a float64 copy of the input: every arithmetic use of `triangles` sees the dtype=float64 conversion")
+    from ..provenance import Prov
+    for spec, pname in (("trimesh.triangles:mass_properties", "triangles"),):
+        f_ = ix.func(spec)
+        pv = Prov(ix, f_)
+        n9 = 0
+        for n in ast.walk(f_.node):
+            if not (isinstance(n, ast.Name) and n.id == pname and isinstance(n.ctx, ast.Load)):
+                continue
+            st = pv.stmt_of(n)
+            if st is None or not pv.cfg.nodes_of.get(id(st)):
+                continue
+            ds = pv.defs_at(st, pname) or []
+            # the conversion statement itself reads the raw argument
+            if isinstance(st, ast.Assign) and isinstance(st.targets[0], ast.Name) and st.targets[0].id == pname and isinstance(st.value, ast.Call) \
+                    and ast.unparse(st.value.func) in ("np.asanyarray", "np.asarray", "np.array", "np.ascontiguousarray"):
+                continue
+            n9 += 1
+            conv = []
+            for d in ds:
+                dst = pv.cfg.stmt[d] if d != pv.cfg.entry else None
+                ok_d = isinstance(dst, ast.Assign) and isinstance(dst.value, ast.Call) and ast.unparse(dst.value.func) in ("np.asanyarray", "np.asarray", "np.array", "np.ascontiguousarray") \
+                    and any(k.arg == "dtype" and ast.unparse(k.value) in ("np.float64", "float64", "float") for k in dst.value.keywords)
+                conv.append(ok_d)
+            ok = bool(conv) and all(conv)
+            run.obligation("O9", f"{f_.module.rel}:{n.lineno} {f_.qualname}", f"`{pname}` used at line {n.lineno} is the float64 conversion of the argument", ok)
+            if not ok:
+                run.violation("O9", f_.where, f"`{f_.qualname}` uses `{pname}` at line {n.lineno} without a dtype=float64 conversion reaching it: integer or float32 input is "
+                                              f"pushed through cubic polynomials in its own dtype (wrap-around / 1e-6 relative error), so the integrals are not the exact ones",
+                              key=key_of("C03-O9", f_.qualname, "dtype"))
+                break
+        run.floor(f"uses of `{pname}` in {f_.qualname}", n9, 3)
+    f_ar = ix.func("trimesh.triangles:area")
+    pva = Prov(ix, f_ar)
+    cr = [(st, st.value) for st in ast.walk(f_ar.node) if isinstance(st, ast.Assign) and isinstance(st.targets[0], ast.Name) and st.targets[0].id == "crosses"]
+    okc = bool(cr)
+    for st, v in cr:
+        txt = pva.canon(v, st, strip=False)
+        okc = okc and ("dtype=numpy.float64" in txt or "dtype=float" in txt)
+    f_cr = ix.func("trimesh.triangles:cross")
+    cross_converts = any(isinstance(st, ast.Assign) and isinstance(st.value, ast.Call) and ast.unparse(st.value.func) in ("np.asanyarray", "np.asarray", "np.array")
+                         and any(k.arg == "dtype" and "float64" in ast.unparse(k.value) for k in st.value.keywords) for st in ast.walk(f_cr.node))
+    ok = okc or cross_converts
+    run.obligation("O9", f_ar.where, f"area(): cross products are taken of a float64 conversion (in area: {okc}; inside cross: {cross_converts})", ok)
+    if not ok:
+        run.violation("O9", f_ar.where, "triangles.area computes cross products in the caller's dtype", key=key_of("C03-O9", "area", "dtype"))
+
     # ---------------------------------------------------------------- O7 forwards
     _forwards(run, ix)
 
